@@ -846,11 +846,20 @@ def lemma_fixed_point(ctx):
     auto = [x0 == 0, v0 == v2, C13.curvature(v0, v1, v2) != 0]                            # autocorrelation: peak at zero lag, symmetric, not flat
     auto_local = [lp == ci, l0 == l2, C13.curvature(l0, l1, l2) != 0]                     # its upsampled window: peak at the window centre, symmetric
     size = [n >= 1, up >= 2]
-    return [("upsampled:identical-images-give-zero-shift", size + auto + auto_local + [post_window, post_shift, C13.in_cell(r, n)], r == 0),
-            ("not-upsampled:identical-images-give-zero-shift", [n >= 1] + auto + [post_plain, C13.in_cell(r1, n)], r1 == 0),
-            # what a caller-side centre index that differs from the callee's does (seeded change D): a bias of (ci' - ci)/up
-            ("centre-index-must-be-the-window's", size + auto + auto_local + [post_window, r == centre + (R_(lp) - R_(ci) - 1) / R_(up) - R_(m2) * R_(n), C13.in_cell(r, n), 2 * up < n],
-             r == -1 / R_(up))]
+    M, x = I("M"), Rl("x")
+    Mn = R_(M) * R_(n)
+    # the proof is cut into small steps (each step's conclusion is a hypothesis of the next), so that no query mixes the
+    # algebra of the quotients with the integer argument "a multiple of n inside [-n/2, n/2) is 0"
+    mult = [("a-multiple-of-n:M>=1=>M*n>=n", [n >= 1, M >= 1], Mn >= R_(n)),
+            ("a-multiple-of-n:M<=-1=>M*n<=-n", [n >= 1, M <= -1], Mn <= -R_(n)),
+            ("a-multiple-of-n-in-the-centred-cell-is-0", [n >= 1, x == -Mn, C13.in_cell(x, n), z3.Implies(M >= 1, Mn >= R_(n)), z3.Implies(M <= -1, Mn <= -R_(n))], x == 0)]
+    return mult + [
+        ("upsampled:shift-is-a-multiple-of-n", size + auto + auto_local + [post_window, post_shift], r == -(R_(m1) + R_(m2)) * R_(n)),
+        ("upsampled:identical-images-give-zero-shift", [n >= 1, M == m1 + m2, r == -Mn, C13.in_cell(r, n), z3.Implies(z3.And(n >= 1, r == -Mn, C13.in_cell(r, n)), r == 0)], r == 0),
+        ("not-upsampled:shift-is-a-multiple-of-n", [n >= 1] + auto + [post_plain], r1 == -R_(m1) * R_(n)),
+        # what a caller-side centre index that differs from the callee's does (seeded change D): a bias of (ci' - ci)/up
+        ("centre-index-must-be-the-window's", size + auto + auto_local + [post_window, r == centre + (R_(lp) - R_(ci) - 1) / R_(up) - R_(m2) * R_(n)],
+         r == -1 / R_(up) - (R_(m1) + R_(m2)) * R_(n))]
 
 
 LEMMAS = [Lemma("fixed-point-through-the-cross-correlation-contract", lemma_fixed_point, uses=["cross_correlation_shift (C13)", "dft_upsample (C13)", "DriftCorrection.align_translation"]),
